@@ -236,6 +236,7 @@ int main(int argc, char** argv) {
     else if (part == "u3") uni::U3((int)w.args.getInt("wk", 0), P, visit);
     else if (part == "uep") uni::UEP(P, visit, (int)w.args.getInt("sliders", 7));
     else if (part == "ucastle") uni::UCASTLE(P, visit, w.args.getInt("blockers", 0) != 0);
+    else if (part == "ukraid") uni::UKRAID(P, visit);
     else if (part == "u4") {
         auto classes = uni::u4Classes(false);
         int wk = (int)w.args.getInt("wk", 2);
